@@ -472,6 +472,7 @@ type Contract struct {
 	Ensures   []Clause
 	Rely []Clause
 	LockInv []Clause // invariant of the state protected by the object's lock (`opt lock`)
+	GhostSets []GhostSet // ghost assignments performed at the function's exit (before its ensures are checked)
 	ExitEnsures []Clause // atomic mode: clauses about the action log, evaluated at exit
 	PanicsIff *Clause
 	OnPanic   []Clause
@@ -528,6 +529,16 @@ type TypeInv struct {
 	Pkg  string
 }
 
+// GhostSet: `ghostset name[row] v = body` (one row of a two-index ghost variable) or `ghostset name v = body`
+// (a whole one-index ghost variable): the new content as a function of the index v; old(...) is the entry state.
+type GhostSet struct {
+	Name string
+	Row  *Expr
+	Var  string
+	Body *Expr
+	Src  string
+}
+
 type Pair struct{ Prop, Fork, Orig string }
 
 type BoundedCheck struct {
@@ -563,7 +574,7 @@ func NewContractSet() *ContractSet {
 }
 
 var clauseKeywords = map[string]bool{
-	"func": true, "requires": true, "ensures": true, "exit_ensures": true, "rely": true, "lockinv": true, "panics_iff": true, "on_panic": true,
+	"func": true, "requires": true, "ensures": true, "exit_ensures": true, "rely": true, "lockinv": true, "ghostset": true, "panics_iff": true, "on_panic": true,
 	"assigns": true, "loop": true, "inline": true, "trusted": true, "classes": true, "pure": true,
 	"property": true, "spec": true, "axiom": true, "lemma": true, "type": true, "let": true, "mode": true,
 	"opt": true, "ghost": true, "callback": true, "pair": true, "ghostvar": true, "rangecall": true, "implements": true, "bounded": true, "adt": true, "owned": true, "owns": true, "gives": true,
@@ -727,6 +738,36 @@ func (cs *ContractSet) parseFile(path string) error {
 				return err
 			}
 			cur.Rely = append(cur.Rely, Clause{E: e, Src: rest})
+		case "ghostset":
+			if cur == nil {
+				return fail("ghostset outside func")
+			}
+			eq := strings.Index(rest, " = ")
+			if eq < 0 {
+				return fail("ghostset name[row] var = body")
+			}
+			lhs, body := strings.TrimSpace(rest[:eq]), strings.TrimSpace(rest[eq+3:])
+			f := strings.Fields(lhs)
+			if len(f) != 2 {
+				return fail("ghostset name[row] var = body")
+			}
+			gs := GhostSet{Var: f[1], Src: rest}
+			if i := strings.Index(f[0], "["); i >= 0 {
+				gs.Name = f[0][:i]
+				re, err := parse(strings.TrimSuffix(f[0][i+1:], "]"))
+				if err != nil {
+					return err
+				}
+				gs.Row = re
+			} else {
+				gs.Name = f[0]
+			}
+			be, err := parse(body)
+			if err != nil {
+				return err
+			}
+			gs.Body = be
+			cur.GhostSets = append(cur.GhostSets, gs)
 		case "lockinv":
 			// lockinv <expr>: invariant of the state guarded by the object's lock: assumed when the lock is acquired
 			// (or held on entry), proved when a write lock is released
